@@ -166,7 +166,7 @@ structure PreState where
   info : FixedInfo := {}
   errors : List Diag := []
 
-def preprocessOne (fl : Flags) (constants : AMap WireValue) (assignments : AMap Ex) (known : List String)
+def preprocessOne (fl : Flags) (widths : AMap Width) (constants : AMap WireValue) (assignments : AMap Ex) (known : List String)
     (st : PreState) (f : FixedFunction) : PreState :=
   let inNames := f.inWires.map (·.1)
   let knownClash := inNames.any known.contains                 -- panic!("unexpected duplicate definition")
@@ -191,8 +191,12 @@ def preprocessOne (fl : Flags) (constants : AMap WireValue) (assignments : AMap 
       if missing.length != f.inWires.length then
         let isDisabled : Bool := match f.disabledIfFalse with
           | some enable => match assignments.get? enable with
-            | some expr => match ev fl constants.toEnv expr with
-              | .ok v => !(v.bits > 0)
+            | some expr =>
+              -- only what the width checker accepts is evaluated (after the width fix-up)
+              match check fl widths.toCtx constants.toEnv expr with
+              | .ok _ => (match ev fl constants.toEnv (fixMux fl widths.toCtx constants.toEnv expr) with
+                | .ok v => !(v.bits > 0)
+                | .error _ => false)
               | .error _ => false
             | none => false
           | none => false
@@ -244,7 +248,7 @@ def actionsLoop (fl : Flags) (assignments : AMap Ex) (widths : AMap Width) (decl
 def assignmentsToActions (fl : Flags) (o : Orders) (assignments : AMap Ex) (widths : AMap Width) (known : List String)
     (fixed : List FixedFunction) (declared : List String) (constants : AMap WireValue) : C (List Action) :=
   let g0 := assignGraph assignments known
-  let pre := fixed.foldl (preprocessOne fl constants assignments known) { graph := g0 }
+  let pre := fixed.foldl (preprocessOne fl widths constants assignments known) { graph := g0 }
   if !pre.errors.isEmpty then .error pre.errors else
   match pre.graph.sort o with
   | .ok sorted =>
